@@ -327,7 +327,8 @@ def vLayerNorm (g : DG) (o : DOp) : Option Fus :=
     match s.find "norm_mean", s.find "center_mean", s.find "epsilon", s.find "scale" with
     | some nm, some cm, some eps, some sc =>
       let vecOk (v : Option Nat) : Bool := match v with | some v => (match g.rank v with | some r => r ≤ 1 | none => false) | none => true
-      if lastAxis g nm meanAxis && lastAxis g cm meanAxis && singleF g eps && vecOk (some sc) && vecOk (s.find "bias")
+      let epsOk := match (g.op? nm).bind (·.outs.head?) with | some mo => scalarOperand g eps mo | none => false
+      if lastAxis g nm meanAxis && lastAxis g cm meanAxis && epsOk && vecOk (some sc) && vecOk (s.find "bias")
       then some [] else none
     | _, _, _, _ => none
 
@@ -335,7 +336,8 @@ def vRmsNorm (g : DG) (o : DOp) : Option Fus :=
   patFusion g o rmsNormPat "RMSNormalization" ["x", "scale"] fun s =>
     match s.find "norm_mean", s.find "epsilon", s.find "scale" with
     | some nm, some eps, some sc =>
-      if singleF g eps && lastAxis g nm meanAxis && (match g.rank sc with | some r => r ≤ 1 | none => false) then some [] else none
+      let epsOk := match (g.op? nm).bind (·.outs.head?) with | some mo => scalarOperand g eps mo | none => false
+      if epsOk && lastAxis g nm meanAxis && (match g.rank sc with | some r => r ≤ 1 | none => false) then some [] else none
     | _, _, _ => none
 
 def vMatMulAdd (g : DG) (o : DOp) : Option Fus :=
